@@ -92,6 +92,9 @@ func genC08(r *vh.Rand) c08Spec {
 		s.FirstCutMs = 1 + r.Intn(s.GapMs+2) // not at instant 0: whether the session counts as initialized then is a same-instant race
 	}
 	s.Noise = r.Chance(1, 3)
+	if s.MaxBytes > 0 && r.Bool() {
+		s.Noise = true // a store at its limit is most interesting when another session's appends do the purging
+	}
 	if s.Stream == "standalone" && r.Chance(1, 3) {
 		s.JSON = true
 	}
